@@ -697,6 +697,49 @@ def check_files_info():
     return None
 
 
+def check_files_info_attributes():
+    """7zFormat.txt, kWinAttributes: AllAreDefined [BitVector] External(=0) then one UINT32 per defined entry: the attributes handed to
+    _build_file_list are the UINT32s the section stores (the directory bit 0x10 is read from them)"""
+    for n in (1, 3, 9):
+        es = [i % 3 == 1 for i in range(n)]
+        ef = [False] * n
+        names = [f"n{i}.txt" for i in range(n)]
+        want = [0x10 if (e and not f) else 0x20 for e, f in zip(es, ef)]
+        data = files_info_bytes(names, es, ef)
+        r = reader_on(data + b"\xEE\xEE")
+        got = {}
+        r._build_file_list = lambda *a, **k: got.update(args=a, kw=k)
+        try:
+            r._parse_files_info()
+            vals = list(got.get("args", ())) + list(got.get("kw", {}).values())
+            ints = [list(v) for v in vals if isinstance(v, list) and len(v) == n and all(isinstance(x, int) and not isinstance(x, bool) for x in v)]
+            obs = None if want in ints else f"attributes = {[[hex(x) for x in v] for v in ints]}"
+        except Exception as e:  # noqa
+            obs = f"{type(e).__name__}: {e}"
+        if obs:
+            return {"target": "sevenzip.py::SevenZipReader._parse_files_info", "inputs": {"section_hex": data.hex(), "names": names, "attributes": [hex(x) for x in want]},
+                    "expected": f"attributes {[hex(x) for x in want]} handed to _build_file_list (External byte skipped, then one UINT32 per entry)", "observed": obs}
+    return None
+
+
+def attributes_content_witness():
+    """what the misread costs: an entry whose attribute word has bit 28 set (p7zip / py7zr store st_mode << 16: S_IFIFO) makes the NEXT entry a
+    directory (its low byte is that entry's high byte), which shifts every later member's bytes"""
+    entries = [("a.txt", b"alpha"), ("b.txt", b"bravo!"), ("c.txt", b"charlie")]
+    data = write7z(entries, "copy", True)
+    orig = b"".join(struct.pack("<I", 0x20) for _ in entries)
+    i = data.rindex(orig)
+    d2 = bytearray(data)
+    d2[i:i + 4] = struct.pack("<I", 0x10000020)
+    h0 = 32 + struct.unpack("<Q", data[12:20])[0]
+    hdr = bytes(d2[h0:])
+    start = struct.pack("<QQI", h0 - 32, len(hdr), zlib.crc32(hdr))
+    d2[8:32] = struct.pack("<I", zlib.crc32(start)) + start
+    got, err = run_archive(bytes(d2), "a.7z")
+    want = expected(entries, "a.7z")
+    return first_diff(got, want), err
+
+
 def check_member_size_limit():
     """members above the per-member limit (lowered through the public configure_archive_extraction) are skipped, every other
     member -- in particular the ones stored AFTER an oversized one in the same solid 7z folder -- still comes out as itself"""
@@ -780,6 +823,15 @@ def finding(fid):
                     "expected": "detected as 'tar' (ustar magic at offset 257); members yielded",
                     "observed": f"detected as {det!r}; read_archive: {err or [g[0] for g in got]}"}
         return None
+    if fid == "F31-7z-attributes-read-one-byte-early":
+        r = check_files_info_attributes()
+        if r is not None:
+            try:
+                diff, err = attributes_content_witness()
+                r["observed"] += f"; with attribute 0x10000020 on the first of three members read_archive gives: {diff or err}"
+            except Exception as e:  # noqa
+                r["observed"] += f"; (content witness not run: {type(e).__name__})"
+        return r
     if fid == "F27-empty-plain-tar-not-recognised":
         from sharepoint2text.parsing.extractors.archive_extractor import _detect_archive_type_optimized
         data = write_tar([], "w")
@@ -809,6 +861,8 @@ def find(req):
         checks = [check_read_number]
     elif "_read_boolean_vector" in ob:
         checks = [check_bool_vector, check_bool_vector_defined]
+    elif "attributes-handed-to-_build_file_list" in ob:
+        checks = [check_files_info_attributes]
     elif "_parse_files_info" in ob:
         checks = [check_files_info, check_7z_bytes, lambda: matrix(lambda l: l.startswith("7z"))]
     elif "_decompress_lzma" in ob or "_apply_decoder" in ob:
@@ -856,6 +910,6 @@ if __name__ == "__main__":
     logging.disable(logging.CRITICAL)
     sys.path.insert(0, os.environ.get("VERIF_REPO", "/repo"))
     for fid in ("F10-one-folder-per-file", "F25-7z-empty-file-taken-for-directory", "F26-plain-tar-first-name-starts-with-another-magic",
-                "F27-empty-plain-tar-not-recognised"):
+                "F27-empty-plain-tar-not-recognised", "F31-7z-attributes-read-one-byte-early"):
         print(fid, json.dumps(find({"known_finding": fid}), default=repr)[:600])
     print("scope", json.dumps(find({}), default=repr)[:800])
